@@ -21,7 +21,12 @@ def heap_obligations(tier, mmf, prefix):
     return obs
 
 def obligations(tier):
-    return heap_obligations(tier, False, "")
+    obs = heap_obligations(tier, False, "")
+    for nl in (0, 2, 3):
+        obs.append(dict(name="timerqueue-init-free-n%d" % nl, harness="heap.c", entry="h_lifecycle", defs=["NLIFE=%d" % nl, "NLO=0", "NMAX=3"], unwind=12, unwindset=["heapify#0:6", "heapifyup#0:6", "timerqueue_free#0:6"],
+                        flags=["--object-bits", "12", "--memory-leak-check"], backends=["cadical"], timeout=1800 if tier == "thorough" else 280,
+                        claim="timerqueue_init gives an empty queue (no minimum, nothing due); timerqueue_free releases the %d remaining entries, the heap and the queue (leak check); timerqueue_free(NULL) is a no-op" % nl, bounds="%d entries" % nl, stubs=["malloc/free: CBMC models"]))
+    return obs
 
 TRUSTED = ["CBMC 6.11 C semantics and heap model", "cadical"]
 ASSUMPTIONS = ["sizes from empty to 13 entries (quick: 0..6, 9, 12, 13; thorough: 0..15); 'thousands of entries' is outside the bound (the sift loops are the same code at every depth)"]
